@@ -110,7 +110,7 @@ CLAIMED = {
              'tables (and the multiply/divide table when present) stepped symbolically at full width incl. prior Q/GE; '
              'whole post-state equals the pseudocode.',
         ref='DESIGN.md 6/C09', note='known finding F009 (BFI with lsb != 0) excluded by region, still reported; quick tier: '
-                                    'the solver-bound rows (USADA8, SMLAD/SMLSD, SMLALxy, SMLALD/SMLSLD, SBFX) with register '
+                                    'the solver-bound rows (the multiply family, USAD8/USADA8, SBFX/UBFX/BFI/BFC) with register '
                                     'numbers pinned (DESIGN 14.9), everything symbolic in the thorough tier'),
     'C12': dict(
         text='cpsr_write_by_instr / spsr_write_by_instr with value, byte mask, whole CPSR, SCR.{NS,AW,FW}, NMFI, RFR '
